@@ -136,11 +136,16 @@ def run_publish(work, orders, fault, mode, calls_log, store_kind="local"):
         real_os = tp.os
         real_rename = os.rename
 
+        fired = []
+
         def put_item(self, *path, source=None):
             uid, name = path[0], path[-1]
             with open(calls_log, "ab", buffering=0) as lf:
                 lf.write(f"{uid}\t{name}\n".encode())
-            hit = fault is not None and fault[0] == uid and fault[2] == name
+            # the fault is transient: it hits the first transfer of that file in this run only
+            hit = fault is not None and fault[0] == uid and fault[2] == name and not fired
+            if hit:
+                fired.append(1)
             if hit and fault[1] == "before":
                 action()
             if hit and fault[1] == "mid":
